@@ -26,6 +26,10 @@ CHECKS = [
         "Same histories as C05; on every quiescent peer Status(cid) and StatusAll are compared by class with each other and with the facts (pinset entry, daemon content, outcome of the last operation), and 19 filters are checked against the filter law. Sampling, not proof.",
         "Views are compared by class, so pin_error vs unexpectedly_unpinned is agreement. The cluster-wide peer-map clause is exercised by clustersim when built; until then only the per-peer clauses are decided.",
         "DESIGN.md §6 C06", "trackersim"),
+    chk("C09", "exploration",
+        "Seeded search over metric arrival histories under the fake clock: the real Store/Window/Checker (bare) and the real pubsubmon Monitor over real gossipsub on mocknet receive arrivals with chosen validity and TTLs, window overflows, peerset changes, peer removals and partitions; every read is compared with a reference table at that simulated instant (latest per peer, valid, unexpired, member) and the alert history is judged per expiry episode (never while fresh, at most once, at least once when the expiry rule applies). Sampling, not proof.",
+        "At the exact expiry instant either answer is accepted; with >= 6 samples no upper bound on alert delay is asserted (accrual detector); a renewal that arrives and expires between two checker rounds does not demand its own alert; metrics that travel over gossipsub get structural clauses only. The publish-cadence clause (informer/ping loops of Cluster) is decided in clustersim when built.",
+        "DESIGN.md §6 C09", "monsim"),
 ]
 
 NA = {
@@ -55,6 +59,7 @@ def main():
             "add_only": True,
         },
         "engines": [
+            {"name": "monsim", "path": "/verif/harness/monsim", "serves_properties": ["C09"], "kind_free_text": "real metrics Store/Window/Checker and pubsubmon over gossipsub on mocknet under the fake clock"},
             {"name": "trackersim", "path": "/verif/harness/trackersim", "serves_properties": ["C05", "C06"], "kind_free_text": "real stateless tracker + optracker in a synctest bubble against model pinset and model IPFS daemon"},
         ],
         "checks": CHECKS,
